@@ -364,8 +364,11 @@ class chunks(object):
         # Convert ra, dec into something that can be digested by the
         # groups object.
         #
-        x = np.deg2rad(np.vstack((ra[chunkList], dec[chunkList])))
-        radLinkSep = np.deg2rad(linkSep)
+        # Always work in double precision: np.deg2rad() of 8 or 16 bit
+        # integers would otherwise be computed in half or single precision.
+        #
+        x = np.deg2rad(np.vstack((ra[chunkList], dec[chunkList])).astype(np.float64))
+        radLinkSep = np.deg2rad(np.float64(linkSep))
         group = groups(x, radLinkSep, 'sphereradec')
         return group
 
